@@ -509,3 +509,6 @@ def run(facts, rep, tier):
     c04.rule_r1(facts, rep, "C08-R7")
     c04.rule_r2(facts, rep, "C08-R7b")
     c04.rule_r6(facts, rep, "C08-R7c")
+    rep.rule("C08-R8", "= C13-R4: the link under the cursor is found by comparing positions line first, column second.")
+    from . import c13
+    c13.rule_r4(facts, rep, "C08-R8")
